@@ -15,6 +15,7 @@ import io, os, itertools, tempfile, shutil
 import numpy as np
 from mc.checks.common import *
 from mc.checks.findlib import explorer, draw_bound
+from mc.engine.choices import Divergence
 from mc.alphabet import geom as G
 from mc.ref.geom import wrap
 from mc.ref.cml import write_cml
@@ -186,7 +187,10 @@ def run_example(sc, ctx, out):
     V = lambda clause, sig, msg: out['violations'].append(viol(clause, sig, '%s: %s' % (name, msg), sc, argv=args))
     if err or res.exception is not None:
         V('cli-runs', 'example-exc:%s' % type(res.exception if not err else err[0]).__name__, 'the command line raised %r' % (res.exception if not err else err[0],)); shutil.rmtree(d, True); return
-    (r2, err2), _ = ex.run(lambda: call(api_driver, argv[0], o2, **kw), answers)
+    try:
+        (r2, err2), _ = ex.run(lambda: call(api_driver, argv[0], o2, **kw), answers)
+    except Divergence as e:
+        V('same-structure', 'example-draws-diverge', 'the API sequence does not reach the same random draws as the command line (%s)' % e); shutil.rmtree(d, True); return
     if err2:
         V('api-runs', 'example-api-exc', 'the API sequence raised %r' % (err2[0],))
     elif not same_file(open(o1).read(), open(o2).read(), ext):
@@ -282,7 +286,10 @@ def run_generated(sc, ctx, out, els, P, cell, pname, d):
             V('cli-runs', 'exit-code', 'exit code %r, output %r' % (res.exit_code, res.output[-300:])); continue
         if fe:
             V('cli-runs', 'framework-element:no-effect-oracle', 'no oracle for --framework-element on this output'); continue
-        (found, err2), _ = ex.run(lambda: call(api_driver, ipath, o2, **kw), answers)
+        try:
+            (found, err2), _ = ex.run(lambda: call(api_driver, ipath, o2, **kw), answers)
+        except Divergence as e:
+            V('same-structure', 'draws-diverge', 'the API sequence does not reach the same random draws as the command line (%s): the two do not perform the same operations' % e); continue
         if err2:
             V('api-runs', 'api-exc:' + exc_sig(err2), 'the API sequence raised %r' % (err2[0],)); continue
         text2 = open(o2).read()
